@@ -147,3 +147,9 @@ for _c in ALL:
                              'by propose + accept or ends by renounce' % (_c, _k),
                    bounds='sender in {owner, pending owner, stranger, pool manager, farm manager}; pending transfer present or not; with / without funds',
                    covers=['ok', 'rejected'], replay=_replay(_c, _k))(_ob(_c, _k))
+
+
+# ---------------------------------------------------------------- position and farm authorisations (clauses shared with C08 / C11)
+from . import c08 as _c08, c11 as _c11   # noqa: E402
+share('C08', 'C15', 'P', lambda n: n.split('.')[0] in ('S1', 'S2', 'S3', 'S4', 'S6'))      # withdraw / close / create / expand: sender roles incl. the pool manager
+share('C11', 'C15', 'F', lambda n: n.startswith(('S3.', 'S4.')))                      # farm expand / close: farm owner, contract owner, others
